@@ -146,9 +146,9 @@ def r14_4(run, model):
 
 
 def run(run, model):
-    r14_1(run, model)
-    r14_2(run, model)
+    run.try_rule(r14_1, model)
+    run.try_rule(r14_2, model)
     run.rule("R14.3", "both pipelines gate on the same diagnostics: shared with C03 R03.1 (stage gating; resolver diagnostics merged in every package type-check)")
-    c03.r03_1(run, model)
-    r14_4(run, model)
+    run.try_rule(c03.r03_1, model)
+    run.try_rule(r14_4, model)
     run.assume("package ids (sequential vs hash-derived) and gensym numbering differ between the pipelines by design; whether that is unobservable is a semantic question this check does not decide")
